@@ -558,6 +558,7 @@ fn pack_level(rep: &mut Report, seed: u64, thorough: bool, scale: u64, scratch: 
             pack_correspondence(rep, &mut r, &pd, spec, nreq);
         }
         pack_oracle(rep, &mut r, &mut pd, 60, true);
+        chain_order_oracle(rep, &pd);
     }
     // larger packs over the whole option grid: oracle only
     let n_big = budget(2, 16);
@@ -580,6 +581,7 @@ fn pack_level(rep: &mut Report, seed: u64, thorough: bool, scale: u64, scratch: 
             rep.bucket(if ofs { "pack:ofs-delta" } else { "pack:ref-delta" });
             let n = pd.entries.len();
             pack_oracle(rep, &mut r, &mut pd, n + n / 2, thorough);
+            chain_order_oracle(rep, &pd);
         }
         // the same objects through gix_odb::Cache with pack and object caches (a packed repository)
         if i < budget(1, 4) {
@@ -624,6 +626,81 @@ fn pack_level(rep: &mut Report, seed: u64, thorough: bool, scale: u64, scratch: 
 
 thread_local! {
     static PACK_SEED: std::cell::Cell<u64> = std::cell::Cell::new(0);
+}
+
+/// Walk every delta chain from its oldest delta to its newest, each object right after its base, through every
+/// caching cache: the base of each request is then in the cache (also in a one-slot cache). Chains of a growing file
+/// read newest to oldest have cached intermediates that are LARGER than the object requested next.
+fn chain_order_oracle(rep: &mut Report, pd: &PackData) {
+    use gix_pack::data::entry::Header;
+    // base offset of every delta entry, and the size of every object
+    let mut parent: HashMap<u64, u64> = HashMap::new();
+    for (offset, _) in &pd.entries {
+        let Ok(entry) = pd.pack.entry(*offset) else { continue };
+        match entry.header {
+            Header::OfsDelta { base_distance } => {
+                parent.insert(*offset, entry.base_pack_offset(base_distance));
+            }
+            Header::RefDelta { base_id } => {
+                if let Some(i) = pd.index.lookup(base_id) {
+                    parent.insert(*offset, pd.index.pack_offset_at_index(i));
+                }
+            }
+            _ => {}
+        }
+    }
+    let by_offset: HashMap<u64, gix_hash::ObjectId> = pd.entries.iter().cloned().collect();
+    let size_of = |o: &u64| pd.truth[&by_offset[o]].1.len();
+    let has_child: std::collections::HashSet<u64> = parent.values().cloned().collect();
+    // paths from the first delta of a chain down to each leaf
+    let mut paths: Vec<Vec<u64>> = Vec::new();
+    for (offset, _) in &pd.entries {
+        if has_child.contains(offset) || !parent.contains_key(offset) {
+            continue;
+        }
+        let mut path = vec![*offset];
+        let mut cur = *offset;
+        while let Some(p) = parent.get(&cur) {
+            if !parent.contains_key(p) {
+                break; // `p` is the full base object: never cached
+            }
+            path.push(*p);
+            cur = *p;
+        }
+        path.reverse();
+        paths.push(path);
+    }
+    let shrinking = paths.iter().any(|p| p.windows(2).any(|w| size_of(&w[0]) > size_of(&w[1])));
+    let deep = paths.iter().any(|p| p.len() >= 2);
+    rep.bucket(if shrinking { "chain:cached-intermediate-LARGER-than-next-object" } else if deep { "chain:delta-on-delta-but-not-shrinking" } else { "chain:no-delta-on-delta" });
+    let seedop = format!("packs {}", PACK_SEED.with(|s| s.get()));
+    for spec in PACK_CACHES {
+        if spec == "never" || spec == "static:0:0" {
+            continue;
+        }
+        let Some(AnyCache::Pack(mut cache)) = make_cache(spec) else { continue };
+        let mut out = Vec::new();
+        let mut inflate = gix_features::zlib::Inflate::default();
+        for path in &paths {
+            for offset in path {
+                let id = by_offset[offset];
+                let key = format!("chain-order pack[{}] cache={spec} id={id}", pd.label);
+                rep.oracle_only(&key, true);
+                rep.oracle_checked();
+                rep.git_checked(1);
+                match decode_one(pd, *offset, &mut out, &mut inflate, cache.as_mut()) {
+                    Ok(Ok(o)) => {
+                        let (t, bytes) = &pd.truth[&id];
+                        if &o.kind.to_string() != t || &out != bytes {
+                            rep.oracle_failure(&key, &format!("requested right after its (cached) base: decode_entry gives {} with {} bytes, git cat-file says {t} with {} bytes", o.kind, out.len(), bytes.len()), &seedop);
+                        }
+                    }
+                    Ok(Err(e)) => rep.oracle_failure(&key, &format!("requested right after its (cached) base: decode_entry failed: {e}"), &seedop),
+                    Err(e) => rep.oracle_failure(&key, &format!("requested right after its (cached) base ({} bytes, cached base of the previous request): decode_entry panicked: {e}", size_of(offset)), &seedop),
+                }
+            }
+        }
+    }
 }
 
 /// the caches as `gix_odb::Cache` wants them
